@@ -80,11 +80,14 @@ type FuncContract struct {
 	Layer1   bool
 	Invs     map[int][]*Clause // loop ordinal -> invariants
 	Decr     map[int]*Clause
+	LoopHints map[int][]*Clause
 	Hints    []*Clause // ground lemma instances / extra facts to be proved then assumed at entry? (proved as obligations first)
 	Outs     []string  // destination parameters (for F2)
 	Operands []string
 	Defines  []Expr // leaves always defined by the function
 	NoBody   bool
+	Delegate     string // callee the function must delegate to (class T)
+	DelegateArgs []Expr
 	Reveal   map[string]bool
 	Asserts  map[string][]*Clause // call site (callee#ordinal) -> ghost assertions proved, then assumed, just before the call
 	LocalAssume map[string]*Clause // assumptions on float-derived locals (listed in evidence)
@@ -435,7 +438,7 @@ var clauseKW = map[string]bool{
 	"func": true, "requires": true, "ensures": true, "assigns": true, "nilable": true, "fresh": true,
 	"trusted": true, "layer": true, "loop": true, "props": true, "define": true, "lemma": true,
 	"global": true, "outs": true, "operands": true, "defines": true, "hint": true, "pure": true,
-	"allocates": true, "exported": true, "axiom": true, "local": true, "reveal": true, "assert": true, "using": true,
+	"allocates": true, "exported": true, "axiom": true, "local": true, "reveal": true, "assert": true, "using": true, "delegates": true,
 }
 
 var tagRe = regexp.MustCompile(`^\{([A-Za-z0-9_,\- ]*)\}\s*`)
@@ -620,6 +623,11 @@ func ParseSpecFile(path string) (*Spec, error) {
 					cur.Invs[n] = append(cur.Invs[n], c)
 				case "decreases":
 					cur.Decr[n] = c
+				case "hint":
+					if cur.LoopHints == nil {
+						cur.LoopHints = map[int][]*Clause{}
+					}
+					cur.LoopHints[n] = append(cur.LoopHints[n], c)
 				default:
 					panic(fmt.Sprintf("line %d: bad loop clause kind %s", l.no, f[1]))
 				}
@@ -639,6 +647,14 @@ func ParseSpecFile(path string) (*Spec, error) {
 					cur.Asserts = map[string][]*Clause{}
 				}
 				cur.Asserts[site] = append(cur.Asserts[site], &Clause{Kind: "assert", Tags: tags, Name: name, E: mustExpr(ex, l.no), Src: ex})
+			case "delegates":
+				i := strings.LastIndex(rest, "(")
+				// callee names contain parentheses themselves: the argument list is the last parenthesised group
+				j := matchParen(rest, i)
+				cur.Delegate = strings.TrimSpace(rest[:i])
+				for _, part := range splitTop(rest[i+1 : j]) {
+					cur.DelegateArgs = append(cur.DelegateArgs, mustExpr(part, l.no))
+				}
 			case "reveal":
 				if cur.Reveal == nil {
 					cur.Reveal = map[string]bool{}
